@@ -74,5 +74,17 @@ P5 == {PCase("P5", <<F("a", Decl5, 0, 1), F("b", Decl5, 0, 1), F("c", V1, 0, 1),
 P6 == {[PCase("P6", <<F("a", Prim("Integer"), 0, 1)>>, <<Leaf("5")>>, <<Prim("Integer")>>, <<Leaf("5")>>, TRUE)
           EXCEPT !.inh = <<DeclBase(ns)>>, !.inhvals = <<iv>>, !.outh = <<DeclBase(ns)>>, !.outhvals = <<ov>>] :
              ns \in {"tns", "urn:other"}, iv \in {Nil} \cup ValuesOf("Base"), ov \in {Nil} \cup ValuesOf("Base")}
-PolyCases == P1 \cup P2 \cup P3 \cup P4 \cup P5 \cup P6
+\* P7 (dict family, wrapper documents): a subclass declared AFTER the server has answered its first request (a plug-in module
+\* imported late): the wrapper key naming it is accepted like any other subclass' - what the subclasses of a class are is asked
+\* when a request is read, not remembered from an earlier one.  `prime` is the value of the first, earlier request.
+WithField(t, k0, x) == [k \in DOMAIN t \cup {k0} |-> IF k = k0 THEN x ELSE t[k]]
+PLate(ns) == WithField(Sub("Late", ns, <<F("l2", Prim("Integer"), 0, 1)>>, PM(ns)), "late", TRUE)
+DeclBaseLate(ns) == [PB(ns) EXCEPT !.subs = <<PM(ns), PL(ns), PO(ns), PLate(ns)>>]
+LateV == ObjV("Late", <<Leaf("5"), Leaf("hello"), Leaf("true"), Leaf("7")>>)
+P7 == {WithField(PCase("P7", <<F("o", DeclBaseLate(ns), 0, 1)>>, <<LateV>>, <<DeclBaseLate(ns)>>, <<LateV>>, TRUE),
+                 "prime", <<ObjV("Base", <<Leaf("5"), Leaf("hello")>>)>>) : ns \in {"tns", "urn:other"}}
+      \cup {WithField(PCase("P7", <<F("a", Arr(DeclBaseLate(ns)), 0, 1)>>, <<SeqV(<<ObjV("Base", <<Leaf("5"), Leaf("hello")>>), LateV>>)>>,
+                              <<Arr(DeclBaseLate(ns))>>, <<SeqV(<<LateV>>)>>, TRUE),
+                 "prime", <<SeqV(<<ObjV("Mid", <<Leaf("5"), Leaf("hello"), Leaf("true")>>)>>)>>) : ns \in {"tns"}}
+PolyCases == P1 \cup P2 \cup P3 \cup P4 \cup P5 \cup P6 \cup P7
 =============================================================================
